@@ -238,6 +238,11 @@ def make_numpy(it):
             return astype(it, r, dtype) if dtype is not None else r
         if isinstance(x, Opaque):
             return x
+        if type(x).__name__ == "BroadcastList":
+            n = x.n
+            if isinstance(n, SV) and z3.is_const(n.z) and n.z.decl().name().startswith("n@"):
+                return Arr(Space.get(n.z.decl().name()[2:]), x.x if x.x is not None else SV(PV.none), True)
+            return Opaque("np.array([x] * n)")
         if is_scalar(x):
             return astype(it, x, dtype) if dtype is not None else x
         if isinstance(x, (list, tuple)):
